@@ -90,7 +90,8 @@ def split_counts(rng, n, mx):
 class C10(Prop):
     ID = "C10"
     THEOREMS = ["C10_search_any_tree", "C10_search_any_tree_keyed", "C10_endianness", "C10_endianness_fields", "C10_sections",
-                "C10_sections_fixed_step", "C10_sections_var_step", "C10_zoom_block", "C10_bed_block", "C10_chrom_tree", "C10_reads_emit"]
+                "C10_sections_fixed_step", "C10_sections_var_step", "C10_zoom_block", "C10_bed_block", "C10_chrom_tree", "C10_reads_emit",
+                "C10_cached_reads_emit", "C10_cached_reads_emit_from", "C10_cached_reads_emit_bed"]
     # the CLI tools are run in the thorough tier only; quick never waits for their build
     NEED_BINS = ("thorough" in sys.argv) or os.environ.get("VERIF_TIER") == "thorough"
     RULE = ("files emitted by the independent encoder over {little, big endian} x {zlib, raw} x {section types 1/2/3 mixed} x "
